@@ -1273,6 +1273,9 @@ func (op *rem) Run(ctx *Context, _ map[string]int32, pc int32, memory []int8, se
 	if ctx.Debug {
 		fmt.Printf("\t\tRun: Rem %d %d\n", rs1, rs2)
 	}
+	if rs2 == 0 {
+		return Execution{}, fmt.Errorf("division by zero")
+	}
 	register, value := IsRegisterChange(op.rd, rs1%rs2)
 	return Execution{
 		RegisterChange: true,
